@@ -3,6 +3,7 @@ package mon
 import (
 	"fmt"
 	"reflect"
+	"sort"
 	"strings"
 
 	"github.com/vektah/gqlparser/v2/ast"
@@ -483,6 +484,8 @@ func c04Run(x *core.Ctx) {
 			// a variant that is not even a token sequence: where the lexical error is reported
 			c3 := core.NewCase("query", "src", c04LexFault(r, src))
 			x.Do(c3, func() { c04Check(x, c3) })
+			c4 := core.NewCase("badutf8", "src", c04BadUTF8(r, src), "grammar", "query")
+			x.Do(c4, func() { c04Check(x, c4) })
 		case 2:
 			d := gen.SchemaDoc(r, &gen.SOpts{Hostile: i%8 < 4, KeywordNames: i%3 == 0})
 			src := rn.RenderSDoc(d)
@@ -499,10 +502,55 @@ func c04Run(x *core.Ctx) {
 			x.Do(c2, func() { c04Check(x, c2) })
 			c3 := core.NewCase("schema", "src", c04LexFault(r, src))
 			x.Do(c3, func() { c04Check(x, c3) })
+			c4 := core.NewCase("badutf8", "src", c04BadUTF8(r, src), "grammar", "schema")
+			x.Do(c4, func() { c04Check(x, c4) })
 		case 3:
 			c04Typed(x, r, rn, i)
 		}
 	}
+}
+
+// c04BadBytes are byte sequences that are not UTF-8: lone continuation bytes, lead bytes without their continuation (a Latin-1
+// letter before ASCII), truncated and overlong sequences, an encoded surrogate, bytes no encoding uses.
+var c04BadBytes = []string{"\x80", "\xbf", "\xc3", "\xe9", "\xe9a", "\xff", "\xf0\x9f", "\xf0\x9f\x98", "\xed\xa0\x80", "\xc0\x80", "\xe2\x82", "\xf8", "\xb0C", "\xa3\xa3"}
+
+// c04BadUTF8 puts one to three such sequences into the text: mostly inside quoted strings, block strings and comments (where any
+// character may stand, so the text stays lexable), sometimes anywhere.
+func c04BadUTF8(r *core.Rand, src string) string {
+	rs := []rune(src)
+	var inside []int
+	if rr := ref.LexFrame(src); rr.Abstain == "" {
+		for _, t := range rr.Toks {
+			lo, hi := t.Start+1, t.End-1
+			if t.Kind == ref.KBlock {
+				lo, hi = t.Start+3, t.End-3
+			}
+			if t.Kind == ref.KComment {
+				hi = t.End
+			}
+			if t.Kind == ref.KString || t.Kind == ref.KBlock || t.Kind == ref.KComment {
+				for k := lo; k <= hi && k <= len(rs); k++ {
+					inside = append(inside, k)
+				}
+			}
+		}
+	}
+	var ats []int
+	for n := 1 + r.Intn(3); n > 0; n-- {
+		at := r.Intn(len(rs) + 1)
+		if len(inside) > 0 && !r.Chance(1, 5) {
+			at = inside[r.Intn(len(inside))]
+			if at > len(rs) {
+				at = len(rs)
+			}
+		}
+		ats = append(ats, at)
+	}
+	sort.Sort(sort.Reverse(sort.IntSlice(ats)))
+	for _, at := range ats {
+		src = string(rs[:at]) + c04BadBytes[r.Intn(len(c04BadBytes))] + src[len(string(rs[:at])):]
+	}
+	return src
 }
 
 // c04LexFaults are texts that are not tokens (one per way a lexeme can fail, several lengths of each).
@@ -618,7 +666,125 @@ func c04Check(x *core.Ctx, c *core.Case) {
 		if x.WantSample() && len(src.Input) < 500 {
 			x.Sample(map[string]interface{}{"kind": c.Kind, "source": src.Input, "positions_checked_so_far": x.Res.Counts["positions_checked"], "verdict": "all token, node and error positions agree with the line index"})
 		}
+	case "badutf8":
+		// Bytes that are not UTF-8 count as one character each (what ranging over a Go string gives). So the text in which each
+		// of them is replaced by U+FFFD is, character for character, the same text: the library must report the same token
+		// kinds, extents, lines and columns and the same error place for both; and the replaced text is judged like any other.
+		orig := c.Get("src")
+		clean := string([]rune(orig))
+		if clean == orig {
+			x.Count("badutf8:nothing-invalid")
+		}
+		type tk struct {
+			kind                   lexer.Type
+			start, end, line, col int
+		}
+		lexAll := func(in string) (out []tk, errAt string) {
+			lx := lexer.New(&ast.Source{Name: "bytes.graphql", Input: in})
+			for i := 0; i <= len(in)+1; i++ {
+				t, err := lx.ReadToken()
+				if err != nil {
+					if ge, ok := err.(*gqlerror.Error); ok && len(ge.Locations) > 0 {
+						return out, fmt.Sprintf("%d:%d", ge.Locations[0].Line, ge.Locations[0].Column)
+					}
+					return out, "unlocated: " + err.Error()
+				}
+				out = append(out, tk{t.Kind, t.Pos.Start, t.Pos.End, t.Pos.Line, t.Pos.Column})
+				if t.Kind == lexer.EOF {
+					break
+				}
+			}
+			return out, ""
+		}
+		to, eo := lexAll(orig)
+		tc, ec := lexAll(clean)
+		x.Count("badutf8_texts")
+		x.CountN("badutf8_tokens_compared", int64(len(to)))
+		if eo == "" {
+			x.Count("badutf8_lexed_to_the_end")
+		}
+		if eo != ec {
+			x.Violate("invalid-utf8:error-place-differs", "with the raw bytes: "+eo+", with U+FFFD in their place: "+ec, "the same place")
+		}
+		for i := 0; i < len(to) && i < len(tc); i++ {
+			if to[i] != tc[i] {
+				x.Violate("invalid-utf8:token("+to[i].kind.Name()+"):position-differs", fmt.Sprintf("token %d with the raw bytes %+v, with U+FFFD in their place %+v", i, to[i], tc[i]), "one character per invalid byte")
+				break
+			}
+		}
+		if len(to) != len(tc) {
+			x.Violate("invalid-utf8:token-count-differs", fmt.Sprintf("%d vs %d", len(to), len(tc)), "the same tokens")
+		}
+		parse := func(in string) (interface{}, error) {
+			s := &ast.Source{Name: "bytes.graphql", Input: in}
+			if c.Get("grammar") == "query" {
+				return parser.ParseQuery(s)
+			}
+			return parser.ParseSchema(s)
+		}
+		ro, erro := parse(orig)
+		rc, errc := parse(clean)
+		if (erro == nil) != (errc == nil) {
+			x.Violate("invalid-utf8:parse-verdict-differs", fmt.Sprintf("raw: %v; replaced: %v", erro, errc), "the same verdict")
+		} else if erro == nil {
+			x.Count("badutf8_parsed")
+			po, pcn := collectPositions(ro), collectPositions(rc)
+			if po != pcn {
+				x.Violate("invalid-utf8:node-positions-differ", firstDiffLine(po, pcn), "the same positions")
+			}
+		} else if ge1, ok1 := erro.(*gqlerror.Error); ok1 {
+			if ge2, ok2 := errc.(*gqlerror.Error); ok2 && fmt.Sprint(ge1.Locations) != fmt.Sprint(ge2.Locations) {
+				x.Violate("invalid-utf8:parse-error-place-differs", fmt.Sprint(ge1.Locations)+" vs "+fmt.Sprint(ge2.Locations), "the same place")
+			}
+		}
+		c2 := core.NewCase(c.Get("grammar"), "src", clean)
+		c04Check(x, c2)
 	default:
 		c04CheckTyped(x, c)
 	}
+}
+
+// collectPositions lists every *ast.Position reachable from a tree (start, end, line, column) in walk order.
+func collectPositions(root interface{}) string {
+	var b strings.Builder
+	seen := map[uintptr]bool{}
+	var walk func(v reflect.Value, depth int)
+	walk = func(v reflect.Value, depth int) {
+		if depth > 4000 {
+			return
+		}
+		switch v.Kind() {
+		case reflect.Ptr:
+			if v.IsNil() || seen[v.Pointer()] {
+				return
+			}
+			if p, ok := v.Interface().(*ast.Position); ok {
+				fmt.Fprintf(&b, "%d-%d@%d:%d\n", p.Start, p.End, p.Line, p.Column)
+				return
+			}
+			if _, ok := v.Interface().(*ast.Source); ok {
+				return
+			}
+			seen[v.Pointer()] = true
+			walk(v.Elem(), depth+1)
+		case reflect.Interface:
+			if !v.IsNil() {
+				walk(v.Elem(), depth+1)
+			}
+		case reflect.Struct:
+			for i := 0; i < v.NumField(); i++ {
+				if v.Type().Field(i).PkgPath == "" {
+					walk(v.Field(i), depth+1)
+				}
+			}
+		case reflect.Slice, reflect.Array:
+			for i := 0; i < v.Len(); i++ {
+				walk(v.Index(i), depth+1)
+			}
+		case reflect.Map:
+			// no maps in parsed documents
+		}
+	}
+	walk(reflect.ValueOf(root), 0)
+	return b.String()
 }
